@@ -345,13 +345,16 @@ func c16One(c *ctx, in c16Input, d *Driver, impl *[]string) {
 		q := c16Query{in.B2, in.E2, in.MinShift, in.Depth}
 		c16JudgeCsiAny(c.res, q, c16Probe([]c16Query{q})[q.key()])
 	case "baianyquery":
-		bin := bam.VerifBinFor(int(in.B1), int(in.E1))
-		found := false
-		for _, x := range bam.VerifOverlappingBinsFor(int(in.B2), int(in.E2)) {
-			found = found || x == bin
+		q := c16Query{in.B2, in.E2, c16BaiQuery, 0}
+		a := c16Probe([]c16Query{q})[q.key()]
+		spec := c16SpecReg2bins(q.Beg, minI64(q.End, 1<<29), 14, 5)
+		keys := make([]uint32, 0, len(spec))
+		for b := range spec {
+			keys = append(keys, b)
 		}
-		if !found {
-			c.res.fail("c16.bai.anyquery.binnotlisted", fmt.Sprintf("BinFor(%d,%d)=%d not in OverlappingBinsFor(%d,%d)", in.B1, in.E1, bin, in.B2, in.E2), in)
+		sortU32(keys)
+		if a != c16ShowBins(keys) {
+			c.res.fail("c16.bai.anyquery.spec", fmt.Sprintf("OverlappingBinsFor(%d,%d) = %.80s, specification %.80s", in.B2, in.E2, a, c16ShowBins(keys)), in)
 		}
 	}
 }
